@@ -88,8 +88,9 @@ Proof. exact @sample_time_spec. Qed.
 Print Assumptions C16_sample_time_spec.
 
 (* throttle_with_mapper, step level (the instants at which the throttle
-   observables notify are inputs).  PARTIAL: no closed form over absolute time;
-   whole-run behaviour is covered by the K2 correspondence. *)
+   observables notify are inputs).  This is the step lemma; the run-level statements
+   are C16_throttle_with_mapper_walk / C16_throttle_with_mapper_emitted_cause at the
+   end of this file. *)
 Theorem C16_throttle_with_mapper_step_partial : forall A (mapper : A -> nat -> res unit) (s : thm_st) now,
   let m := x_throttle_with_mapper mapper in
   (forall k e cid, k <> 0%nat -> lookup k (tm_subs s) = Some cid -> not_err e ->
@@ -144,3 +145,46 @@ Example C16_ex_sample_hyp :
               (5, 0%nat, Next 7); (6, 0%nat, Done); (7, 1%nat, Done)] in
   In (7, Next 7) (timed_emits 0 (simulate x_sample_observable 0 (ext2_of ins))) /\ heard true true ins = ins.
 Proof. vm_compute. split; [tauto|reflexivity]. Qed.
+
+(* ==== throttle_with_mapper at run level (Ops/ThrottleMapperRun.v) ==================== *)
+From RxVerif Require Import Ops.SimPortSteps Ops.ThrottleMapperRun.
+
+(* throttle_with_mapper over ALL interleavings of the source (port 0) and of the throttle
+   observables the mapper makes (port j+1 for the j-th accepted element; non-conforming
+   timelines included), from any start instant: the closed world equals the walk [thm_spec]
+   (cnt = elements accepted so far, pend = the latest element while its throttle observable has
+   not fired): a new element replaces the pending one; the first on_next / on_completed of the
+   throttle observable of the LATEST element emits it; older throttle observables are not
+   heard; completion flushes the pending element; an error of the source, of the current
+   throttle observable, or raised by the mapper ends the run and drops it. *)
+Theorem C16_throttle_with_mapper_walk : forall A (mapper : A -> nat -> res unit) t0 (ins : list (Z * nat * ev A)),
+  timed_emits t0 (simulate (x_throttle_with_mapper mapper) t0 (ext2_of ins)) = thm_spec mapper 0 None ins.
+Proof. exact @throttle_with_mapper_walk. Qed.
+Print Assumptions C16_throttle_with_mapper_walk.
+
+(* the property's sentence: if x is emitted at t, the source delivered x at some tx as its
+   (count0 pre)-th notification; since then neither the source nor the throttle observable of x
+   (port S (count0 pre)) notified, until -- at t -- that throttle observable fired (on_next or
+   on_completed) or the source completed *)
+Theorem C16_throttle_with_mapper_emitted_cause :
+  forall A (mapper : A -> nat -> res unit) t0 (ins : list (Z * nat * ev A)) t x,
+  In (t, Next x) (timed_emits t0 (simulate (x_throttle_with_mapper mapper) t0 (ext2_of ins))) ->
+  exists pre tx mid k e rest,
+    ins = pre ++ (tx, 0%nat, Next x) :: mid ++ (t, k, e) :: rest
+    /\ port_silent 0%nat mid /\ port_silent (S (count0 pre)) mid
+    /\ ((k = S (count0 pre) /\ fires e) \/ (k = 0%nat /\ e = Done)).
+Proof. exact @throttle_with_mapper_emitted_cause. Qed.
+Print Assumptions C16_throttle_with_mapper_emitted_cause.
+
+(* 5 is replaced by 6 before its throttle observable (port 1) fires, and that late firing is not
+   heard; 6 is delivered when ITS throttle observable (port 2) fires; 7 is still pending when
+   the source completes and is flushed.  Machine and walk agree, and the hypothesis of
+   C16_throttle_with_mapper_emitted_cause holds (6 is emitted at 4). *)
+Example C16_ex_throttle_with_mapper :
+  let mapper := fun (_ : Z) (_ : nat) => Ok tt in
+  let ins := [(1, 0%nat, Next 5); (2, 0%nat, Next 6); (3, 1%nat, Next 0); (4, 2%nat, Next 0);
+              (5, 0%nat, Next 7); (6, 0%nat, Done)] in
+  thm_spec mapper 0 None ins = [(4, Next 6); (6, Next 7); (6, Done)]
+  /\ timed_emits 0 (simulate (x_throttle_with_mapper mapper) 0 (ext2_of ins)) = [(4, Next 6); (6, Next 7); (6, Done)]
+  /\ In (4, Next 6) (timed_emits 0 (simulate (x_throttle_with_mapper mapper) 0 (ext2_of ins))).
+Proof. vm_compute. repeat split; tauto. Qed.
